@@ -38,8 +38,8 @@ from .common import fail, concepts
 RULE = ('case = one corpus section (text-forms, lattice-order, relations, error-message, definition-order, unknown-name) '
         'with its parameters (a labelled table with >= 6 multi-character names per side in non-alphabetical order, an edit '
         'history, name lists); each case is observed in one interpreter process per PYTHONHASHSEED, every process with its '
-        'own junk-allocation pattern, outputs compared byte for byte; non-trivial = distinct (section, parameters) whose '
-        'observation has >= 20 lines')
+        'own junk-allocation pattern, outputs compared byte for byte; non-trivial = distinct (section, parameters); an '
+        'observation of fewer than 3 lines or a crashing observation script is itself a failure')
 SCOPE = {'quick': '17 cases (2 text-forms, 4 lattice-order, 2 relations, 2 error-message, 6 definition-order histories of '
                   '<= 14 steps, 1 unknown-name) x PYTHONHASHSEED 0, 1, 2 x allocation patterns 0, 2, 5',
          'thorough': '136 cases (12 text-forms, 30 lattice-order up to 9x9, 12 relations, 8 error-message, 70 definition-order '
